@@ -86,7 +86,10 @@ D_EXEMPT_FUNCS = {
                                     'the call sites through the need-summary)',
 }
 NODE_PTR_TYPES = ('yakushima::base_node *', 'yakushima::border_node *', 'yakushima::interior_node *',
-                  'yakushima::link_or_value *', 'yakushima::node_version64 *', 'yakushima::permutation &')
+                  'yakushima::link_or_value *', 'yakushima::node_version64 *', 'yakushima::permutation &',
+                  # a reference local to a part of a node (`auto& lv = lv_.at(pos);`) names that node, like a pointer
+                  'yakushima::link_or_value &', 'yakushima::base_node &', 'yakushima::border_node &',
+                  'yakushima::interior_node &')
 def is_fresh_initialiser(g):
     """Whole-node initialisers: only legal on a node that is not yet published (level 'F')."""
     if g.qname in (Y + 'base_node::init_base', Y + 'border_node::init_border') and len(g.params) == 0:
